@@ -55,7 +55,7 @@ def junRowOk (r : Str) : Bool :=
   !hasInfix "; ##".toList r &&
   !commentBegin.isPrefixOf r
 
-/-- the per-vendor condition on one row (`cisco`: the condition of the PARTIAL theorem) -/
+/-- the per-vendor condition on one row: words without the vendor's own delimiters -/
 def rowOk (k : Kind) (r : String) : Bool :=
   rowBase r.toList &&
   match k with
@@ -64,15 +64,10 @@ def rowOk (k : Kind) (r : String) : Bool :=
   | .huawei => noDbl r.toList && !(huaweiEndBlocks.any fun p => p.isPrefixOf r.toList)
   | .nexusLike => noDbl r.toList
   | .asr => noDbl r.toList && !(asrEndBlocks.any fun p => p.isSuffixOf r.toList)
-  | .cisco => noDbl r.toList && !addressFamily.isPrefixOf r.toList
+  | .cisco => noDbl r.toList && r.toList != exitAddressFamily
   | .juniper => junRowOk r.toList
   | .ribbon => junRowOk r.toList
   | .nokia => junRowOk r.toList
-
-/-- Cisco at full strength: rows are words, none is the formatter's own delimiter (`exit`,
-`exit-address-family`); rows starting with `address-family` are ordinary rows. -/
-def ciscoRowFull (r : String) : Bool :=
-  rowBase r.toList && noDbl r.toList && r != "exit" && r != "exit-address-family"
 
 /-! ## trees -/
 
@@ -85,45 +80,113 @@ mutual
     | (k, c) :: rest => ok k && !(rest.any fun e => e.1 == k) && wf ok c && wfL ok rest
 end
 
-/-- a RouterOS section word: one printable word without `/`, not a comment, not one of the two
-sections that `split` post-processes (`/file`, `/user ssh-keys`) -/
-def rosSection (k : String) : Bool :=
-  rowBase k.toList && !(k.toList.any fun c => pyIsSpace c || c == '/') && !rosHasSplitter ('/' :: k.toList)
+/-- `" ".join(path)`: how RouterOS prints the path of a section -/
+def pathStr : List String → Str
+  | [] => []
+  | [k] => k.toList
+  | k :: k' :: ks => k.toList ++ ' ' :: pathStr (k' :: ks)
+
+/-- a RouterOS section word: one printable word without `/`, not a comment -/
+def rosWord (k : String) : Bool :=
+  rowBase k.toList && !(k.toList.any fun c => pyIsSpace c || c == '/')
 
 mutual
-  /-- RouterOS at full strength: a section holds leaf rows first, then sub-sections (any depth) -/
-  def rosBody : Cfg → Bool
-    | .mk ks => rosBodyL false ks
+  /-- RouterOS: the body of the section with path `p` holds leaf rows first, then sub-sections (any
+  depth); no section path is one of the two that `split` post-processes (`/file`, `/user ssh-keys`) -/
+  def rosBody (p : List String) : Cfg → Bool
+    | .mk ks => rosBodyL p false ks
   /-- `seenSection`: a sub-section came earlier among these siblings -/
-  def rosBodyL (seenSection : Bool) : List (String × Cfg) → Bool
+  def rosBodyL (p : List String) (seenSection : Bool) : List (String × Cfg) → Bool
     | [] => true
     | (k, c) :: rest =>
       !(rest.any fun e => e.1 == k) &&
-      (if c.kids.isEmpty then !seenSection && rowBase k.toList && rosBodyL seenSection rest
-       else rosSection k && rosBody c && rosBodyL true rest)
+      (if c.kids.isEmpty then !seenSection && rowBase k.toList && rosBodyL p seenSection rest
+       else rosWord k && !rosHasSplitter ('/' :: pathStr (p ++ [k])) && rosBody (p ++ [k]) c &&
+         rosBodyL p true rest)
 end
 
-/-- the top level holds sections only -/
-def rosTop (t : Cfg) : Bool := t.kids.all (fun e => !e.2.kids.isEmpty) && rosBody t
+/-- RouterOS: the top level holds sections only -/
+def rosTop (t : Cfg) : Bool := t.kids.all (fun e => !e.2.kids.isEmpty) && rosBody [] t
 
-/-- RouterOS, the condition of the PARTIAL theorem: sections of depth one -/
-def rosFlat (t : Cfg) : Bool :=
-  rosTop t && t.kids.all fun e => e.2.kids.all fun e' => e'.2.kids.isEmpty
-
-/-- the well-formed domain of a formatter for which the round trip is PROVED
-(Cisco: no `address-family` row; RouterOS: sections of depth one) -/
+/-- The well-formed domain of a formatter class — the domain the property quantifies over:
+rows of words without the vendor's delimiters, distinct siblings; Nokia: no top-level `configure`;
+RouterOS: sections, each holding leaf rows and then sub-sections. -/
 def WF (k : Kind) (t : Cfg) : Bool :=
   match k with
-  | .ros => rosFlat t
+  | .ros => rosTop t
   | .nokia => wf (rowOk .nokia) t && !(t.kids.any fun e => e.1 == "configure")
   | k => wf (rowOk k) t
 
-/-- the domain the property quantifies over (Cisco and RouterOS at full strength) -/
-def WFfull (k : Kind) (t : Cfg) : Bool :=
-  match k with
-  | .ros => rosTop t
-  | .cisco => wf ciscoRowFull t
-  | k => WF k t
+/-- (name kept from the time when Cisco and RouterOS were only proved on a smaller domain) -/
+abbrev WFfull := WF
+
+mutual
+  /-- reference lines of a RouterOS body after `split`: a section is announced by its whole path, one
+  word per line at depths 0, 1, …; its leaf rows follow at depth `path length` -/
+  def rosLines (w : Nat) (p : List String) : Cfg → List Str
+    | .mk ks => rosLinesL w p ks
+  def rosLinesL (w : Nat) (p : List String) : List (String × Cfg) → List Str
+    | [] => []
+    | (k, c) :: rest =>
+      if c.kids.isEmpty then (blanks (w * p.length) ++ k.toList) :: rosLinesL w p rest
+      else (((p ++ [k]).zipIdx.map fun e => blanks (w * e.2) ++ e.1.toList)
+        ++ rosLines w (p ++ [k]) c) ++ rosLinesL w p rest
+end
+
+mutual
+  /-- what RouterOS `join` prints: `/path words` for a section, leaf rows behind `w * path length` blanks -/
+  def rosText (w : Nat) (p : List String) : Cfg → List Str
+    | .mk ks => rosTextL w p ks
+  def rosTextL (w : Nat) (p : List String) : List (String × Cfg) → List Str
+    | [] => []
+    | (k, c) :: rest =>
+      if c.kids.isEmpty then (blanks (w * p.length) ++ k.toList) :: rosTextL w p rest
+      else (('/' :: pathStr (p ++ [k])) :: rosText w (p ++ [k]) c) ++ rosTextL w p rest
+end
+
+/-! ## the two rules as they were before the fixes (for the record; not annet code any more) -/
+
+/-- `_split_indent` before 13137d1: every `address-family` row shifts what follows -/
+def ciscoSplitIndentOld (line : Str) (indent : Int) (exits : List Str) : List Str × Int :=
+  let s := strip line
+  if exits.contains s then (exits.erase s, indent - 1)
+  else if addressFamily.isPrefixOf s then (exits ++ [exitAddressFamily], indent + 1)
+  else (exits, indent)
+
+def ciscoLoopOld : List Str → Int → List Str → List Str
+  | [], _, _ => []
+  | item :: rest, indent, exits =>
+    let (exits', indent') := ciscoSplitIndentOld item indent exits
+    (List.replicate indent.toNat ' ' ++ item) :: ciscoLoopOld rest indent' exits'
+
+def ciscoSplitOld (text : Str) : List Str := ciscoLoopOld (splitRemoveSpaces text) 0 ["exit".toList]
+
+mutual
+  /-- `RosFormatter.blocks_and_context` before c926070: the prefix is `context.parent.row` (`ctx[1]`) -/
+  def rosBlocksOld (ctx : List Str) : Cfg → List Tok
+    | .mk ks => rosBlocksOldL ctx none false ks
+  def rosBlocksOldL (ctx : List Str) (prevProw : Option Str) (inLeaf : Bool) :
+      List (String × Cfg) → List Tok
+    | [] => if inLeaf && (prevProw.any (!·.isEmpty)) then [.be] else []
+    | (k, c) :: rest =>
+      if c.kids.isEmpty then
+        (if !inLeaf && (prevProw.any (!·.isEmpty)) then [.row (prevProw.getD []), .bb] else [])
+          ++ .row k.toList :: rosBlocksOldL ctx prevProw true rest
+      else
+        (if inLeaf && (prevProw.any (!·.isEmpty)) then [.be] else []) ++
+        (match ctx with
+          | _ :: p :: _ =>
+            if !p.isEmpty then
+              let prow := p ++ ' ' :: k.toList
+              .row prow :: .bb :: rosBlocksOld (prow :: ctx) c ++ .be :: rosBlocksOldL ctx (some p) false rest
+            else
+              .row k.toList :: .bb :: rosBlocksOld (k.toList :: ctx) c ++ .be :: rosBlocksOldL ctx prevProw false rest
+          | _ =>
+            .row k.toList :: .bb :: rosBlocksOld (k.toList :: ctx) c ++ .be :: rosBlocksOldL ctx prevProw false rest)
+end
+
+def rosJoinOld (indent : Str) (t : Cfg) : Str :=
+  joinNl (rosFormatted none (indentBlocks indent 0 (rosBlocksOld [] t)))
 
 /-! ## the statements -/
 
